@@ -1,5 +1,7 @@
 ENGINES = [
-    {"name": "symx", "path": "verif/symx.py", "serves_properties": ["C03", "C11", "C12", "C18"],
+    {"name": "crosshair", "path": "verif/chx.py", "serves_properties": ["C17"],
+     "kind_free_text": "CrossHair 0.0.110 (symbolic execution of Python with z3) on PEP-316 contracts that call the real functions; one process per condition; 'Confirmed over all paths' = holds within the stated bounds, anything else but a replayed counterexample = inconclusive"},
+    {"name": "symx", "path": "verif/symx.py", "serves_properties": ["C03", "C11", "C12", "C17", "C18"],
      "kind_free_text": "concolic execution of the real chmpy Python on z3 Real/Int terms (numpy names rebound to shims), DFS path forking, z3 5.1 decides each assertion"},
 ]
 NOTES = ("Solver-based checking of the real code. Every check regenerates its encoding from /repo's working tree at run time. "
@@ -23,4 +25,8 @@ CHECKS["C03"] = dict(engine="symx",
     technique="symbolic execution of the Crystal neighbourhood queries: NRA completeness lemma on the captured slab bounds (all cells/radii/centres), forked slab-layout and KD-tree-answer exploration",
     text="The real atoms_in_radius/atomic_surroundings/molecule_environment/atom_group_surroundings run on a symbolic cell, radius and centres up to a stubbed slab(); z3 proves per axis that every image within the radius has its cell index inside the captured floor/ceil bounds (Cauchy-Schwarz, no bound on cell or radius) or returns an oblique cell that is replayed against a brute-force periodic search. slab() is executed for every bound box in [-1,1]^3 with symbolic atoms; the selection step is explored over all answer patterns of the KD-tree stub on 3-4 symbolic slab rows.",
     note="Reals for doubles; cell invariant D.I=1 assumed (C12); cKDTree replaced by its contract; images exactly at the radius excluded; functional_group_surroundings, molecular_shell and symmetry_unique_dimers not encoded.")
+CHECKS["C17"] = dict(engine="crosshair + symx",
+    technique="CrossHair symbolic execution of contracts over strings/ints; symx/z3 LIA for numeric lookup, ordering and radius helpers over all integers",
+    text="Numeric lookup, the ordering laws (strict total order, carbon first) and the vectorised helpers are executed on symbolic integers and decided in LIA for every integer (no bound). String lookups are CrossHair contracts over all strings of length <= 3 from a 65-character alphabet (soundness: a returned element is named by the string), digit strings, and formulas of <= 4 elements; the finite spelling-variant space is enumerated completely as ground instances.",
+    note="CrossHair conditions that are 'Not confirmed' within the time budget are listed as inconclusive (bug-hunting only); oracle = an independent reference table of symbols/names in /verif; radii and masses have no independent reference.")
 NOT_APPLICABLE = [{"property_id": p, "reason": "check not yet implemented in this round (planned, see DESIGN.md section 3)"} for p in ALL if p not in CHECKS]
